@@ -19,7 +19,8 @@ struct Profile {
     bool flushes = false;
     bool misuse = false;
     bool wide_ids = false;
-    bool subbyte_aligned = false;     // keep write lengths / ids of sub-byte types byte aligned (known finding KF-subbyte-unaligned-write)
+    bool subbyte_aligned = false;
+    bool no_omission = false;         // no omitted blocks (neither on request nor constant <= 8-bit blocks): KF-C03-omitted-blocks-after-crash / KF-C17-copy-omitted-blocks     // keep write lengths / ids of sub-byte types byte aligned (known finding KF-subbyte-unaligned-write)
 };
 
 Profile profile_for(const std::string &prop, int tier);     // tier: 0 quick, 1 thorough
